@@ -156,9 +156,18 @@ def classify(prog, path, exp, res, all_ids, leg):
     # attributed to the test-pinned deviation when the emulation of it reproduces the answer, or
     # when Nix's own resolution of this query evaluates a non-literal value of a set that is used
     # from outside (the domain of that deviation)
+    # A *value* answer inside that domain must be the one the emulation gives (a different value is
+    # not that deviation, whatever the domain); a refusal inside the domain cannot be told apart by
+    # the emulation (it raises for other reasons than the library) and stays attributed; so does a
+    # query that dereferences a set through a name (`r = s1;` then `-> a`), which the emulation
+    # does not model (2 of 95657 witnesses of a thorough run differed from it, both of this kind).
     key["explained_by"] = ("set-evaluated-where-used-as-rec"
-                           if matches(alt, res) or S.CROSSINGS[0] > 0 else "none")
+                           if matches(alt, res)
+                           or (S.CROSSINGS[0] > 0 and (key["effect"] == "raised-for-a-bound-name"
+                                                       or str(key.get("via", "")).startswith("deref-")))
+                           else "none")
     key["crossing"] = "yes" if S.CROSSINGS[0] > 0 else "no"
+    key["pinned_match"] = "yes" if matches(alt, res) else "no"
     return key
 
 
@@ -219,6 +228,8 @@ def _judge(res, obs, nontriv, prog, path, leg, resolver_factory, src, all_ids, s
         key = classify(prog, path, exp, got, all_ids, leg)
         if key["explained_by"] != "none":
             obs["explained_by_pinned"] += 1
+            B.bump(obs.setdefault("pinned_domain", {}),
+                   f"crossing={key['crossing']} emulation_reproduces={key['pinned_match']} {key['effect']}")
         B.record(res, key, case, f"expected {exp!r} got {got!r} ({label})"[:600])
     return got
 
